@@ -266,6 +266,11 @@ func (p *Program) verifyFunction(fc *FuncContract, fn *ssa.Function) *VC {
 		}
 		return env
 	}
+	for ord := range fc.Loops {
+		if ord < 1 || ord > len(fr.loops.headers) {
+			x.contractError(fr, Clause{Src: fmt.Sprintf("loop %d", ord), File: fc.File, Line: fc.Line}, fmt.Errorf("the function has %d loops; the contract names loop %d", len(fr.loops.headers), ord))
+		}
+	}
 	for _, g := range fc.Ghosts {
 		if t := x.ghostType(fr, g); t != nil {
 			x.set(st, x.ghostVar(fr, g), x.ss.zero(t).S)
